@@ -65,7 +65,7 @@ def gen(tier):
             for deep in (True, False):
                 for full in (True, False):
                     name = '%s_%s_%s' % (cls, 'deep' if deep else 'copy', 'full' if full else 'min')
-                    body = T_COPY.format(cls=cls, name=name, nmax=2 if tier == 'quick' else 3, mutmax=260, deep=deep, full=full)
+                    body = T_COPY.format(cls=cls, name=name, nmax=2 if tier == 'quick' else 3, mutmax=520, deep=deep, full=full)
                     if names and names[-1][1] == cls:
                         body = body[:body.index('def eq_')]
                     f.write(body)
